@@ -432,14 +432,14 @@ func ParseMemberExpr(p *ParserZH) syntax.Expression {
 		mExpr.Root = expr
 		switch tk.Type {
 		case TypeMapHash:
-			match2, tk2 := p.tryConsume(TypeIdentifier, TypeString, TypeStmtQuoteL)
+			match2, tk2 := p.tryConsume(TypeIdentifier, TypeString, TypeLibString, TypeStmtQuoteL)
 			if match2 {
 				// set memberType
 				mExpr.MemberType = syntax.MemberIndex
 				switch tk2.Type {
 				case TypeIdentifier:
 					mExpr.MemberIndex = newID(p, tk2)
-				case TypeString:
+				case TypeString, TypeLibString:
 					mExpr.MemberIndex = newString(p, tk2)
 				case TypeStmtQuoteL:
 					mExpr.MemberIndex = ParseExpression(p)
@@ -486,6 +486,8 @@ func ParseBasicExpr(p *ParserZH) syntax.Expression {
 	var validTypes = []uint8{
 		TypeIdentifier,
 		TypeString,
+		// a text written with 《 》 (one of the three documented ways to write a text)
+		TypeLibString,
 		TypeArrayQuoteL,
 		TypeStmtQuoteL,
 		TypeFuncQuoteL,
@@ -498,7 +500,7 @@ func ParseBasicExpr(p *ParserZH) syntax.Expression {
 		switch tk.Type {
 		case TypeIdentifier:
 			e = newID(p, tk)
-		case TypeString:
+		case TypeString, TypeLibString:
 			e = newString(p, tk)
 		case TypeArrayQuoteL:
 			e = ParseArrayExpr(p)
